@@ -3,7 +3,7 @@
 (* the channel / format / flag configuration space.                                     *)
 (*                                                                                      *)
 (* One behaviour = one invocation:                                                      *)
-(*     ParseSpec -> SelectTarget -> LoadTarget -> Run -> PrintResult                          *)
+(*     ParseArgv -> ParseSpec -> SelectTarget -> LoadTarget -> Run -> PrintResult                          *)
 (* with one action per dispatch case of glom/cli.py (mw_get_target, mw_handle_target,   *)
 (* glom_cli).  The *configuration* (what is on argv, in the files, on stdin, which      *)
 (* flags) and the library's outcome are the environment: they are revealed part by part *)
@@ -30,6 +30,7 @@
 EXTENDS Naturals, Sequences, FiniteSets, TLC
 
 CONSTANT Mutant    \* "none" | "evalfallback" | "stdinfirst" | "exit0" | "indent0" | "execjson"
+                   \* | "extformat" | "exttarget" | "argvignored" | "scalarcoll" | "debugdrop" | "usage0"
 
 VARIABLE m         \* the whole machine state, one record (see M0)
 
@@ -41,21 +42,26 @@ TxtClass(id, lead, pylit, js, syntax, evalok, adv) ==
    evalok |-> evalok, adv |-> adv]
 EmptyTxt == TxtClass("empty", "none", FALSE, FALSE, FALSE, FALSE, FALSE)
 
+\* f: argv syntax argv : "ok" | "badindent" (--indent x) | "toomany" (3 positionals) | "unknownflag"
 \* s: spec side   arg  : first positional  "none" | "text" | "empty" ('' given)
-\*                file : --spec-file       "none" | "ok" | "unreadable"
+\*                file : --spec-file       "none" | "ok" | "unreadable" | "dash" (there is no stdin route)
+\*                ext  : extension of the spec file name: ".py" ".json" ".yml" ".toml" ".txt" "" | "any" | "-"
 \*                fmt  : --spec-format     "default" | "python" | "json" | "python-full" | "bad"
 \*                txt  : class of the effective spec text (argument text, else file content)
-\* t: target side arg  : second positional "none" | "text" | "dash"
+\* t: target side arg  : second positional "none" | "text" | "dash" | "empty" ('' given)
 \*                file : --target-file     "none" | "ok" | "okempty" | "unreadable" | "dash"
+\*                ext  : extension of the target file name (as for s)
 \*                stdin: "empty" | "data"  (never a tty)
 \* l: loading     fmt  : --target-format   "default" | "json" | "python" | "yaml" | "toml" | "bad"
 \*                txt  : class of every non-empty target text  "good" | "malformed"
-\* r: library     res  : what glom(target, spec) does: "coll" | "str" | "int" | "other" | "glomerr"
+\* r: library     res  : what glom(target, spec) does: "coll" | "str" | "int" | "float" | "other"
+\*                       (None / bool) | "glomerr";  dbg: "off" | "debug" (--debug) | "inspect" (--inspect)
 \* p: printing    indent: "default" | "0" | "1" | "4";  scalar: "on" | "off"
-Cfg0 == [s |-> [arg |-> "none", file |-> "none", fmt |-> "default", txt |-> EmptyTxt],
-         t |-> [arg |-> "none", file |-> "none", stdin |-> "empty"],
+Cfg0 == [f |-> [argv |-> "ok"],
+         s |-> [arg |-> "none", file |-> "none", ext |-> "-", fmt |-> "default", txt |-> EmptyTxt],
+         t |-> [arg |-> "none", file |-> "none", ext |-> "-", stdin |-> "empty"],
          l |-> [fmt |-> "default", txt |-> "good"],
-         r |-> [res |-> "coll"],
+         r |-> [res |-> "coll", dbg |-> "off"],
          p |-> [indent |-> "default", scalar |-> "off"]]
 
 NormS(f) == IF f = "default" THEN "python" ELSE f     \* --spec-format defaults to python
@@ -70,7 +76,7 @@ LawNone == LawRec("unspecified", UnspecOut, "unspec")
 
 M0(c, known) ==
   [cfg |-> c, known |-> known,      \* configuration and the parts revealed so far
-   pc |-> "spec",                   \* "spec" | "select" | "load" | "run" | "print" | "done"
+   pc |-> "argv",                   \* "argv" | "spec" | "select" | "load" | "run" | "print" | "done"
    route |-> "none",                \* how the spec was obtained: ident | str | lit | json | exec
    executed |-> FALSE,              \* spec text was run as code
    effect |-> FALSE,                \* a side effect planted in the spec text happened
@@ -78,6 +84,7 @@ M0(c, known) ==
    sel |-> "none",                  \* channel the target text is taken from: arg | file | stdin
    tgt |-> "none",                  \* "emptymap" | "loaded"
    out |-> NoOut, exit |-> "-",     \* exit: "0" | "1" | "usage" | "crash" | "unspec"
+   rc |-> "-", err |-> "-",         \* process status "0" | "1", stderr "empty" | "text"  ("-": open)
    law |-> LawNone,                 \* LawOutcome(cfg), stored at the end for the harness
    hist |-> <<>>]                   \* names of the actions taken
 
@@ -95,7 +102,7 @@ Reveal(part, v) == m' = [m EXCEPT !.cfg[part] = v, !.known = Append(@, part)]
 LawSpec(c) ==
   LET tx == c.s.txt f == NormS(c.s.fmt) IN
   IF c.s.arg = "text" /\ c.s.file # "none" THEN "unspecified"
-  ELSE IF c.s.file = "unreadable" THEN "unspecified"
+  ELSE IF c.s.file \in {"unreadable", "dash"} THEN "unspecified"
   ELSE IF tx.lead = "none" THEN "ident"
   ELSE CASE f = "python"      -> IF tx.pylit THEN "lit"
                                  ELSE IF tx.lead = "other" THEN "str" ELSE "unspecified"
@@ -106,10 +113,12 @@ LawSpec(c) ==
 
 \* Which channel the documentation designates for the target: an explicit argument or
 \* --target-file wins; "-" designates standard input; with neither, standard input.
-\* Two explicit designations at once: no promise.
+\* Two explicit designations at once, or an explicitly empty argument: no promise.
+\* (The names of the files, in particular their extensions, designate nothing: only
+\* --spec-format / --target-format decide how a text is read.)
 LawChannel(c) ==
   LET n == (IF c.t.arg # "none" THEN 1 ELSE 0) + (IF c.t.file # "none" THEN 1 ELSE 0) IN
-  IF n > 1 THEN "unspecified"
+  IF n > 1 \/ c.t.arg = "empty" THEN "unspecified"
   ELSE IF c.t.arg = "text" THEN "arg"
   ELSE IF c.t.file \in {"ok", "okempty", "unreadable"} THEN "file"
   ELSE "stdin"
@@ -122,7 +131,9 @@ LawIndent(c) == CASE c.p.indent = "default" -> "2" [] c.p.indent = "0" -> "none"
 \* designated target and spec.
 LawOutcomeR(c, res) ==
   LET rt == LawSpec(c) ch == LawChannel(c) f == NormT(c.l.fmt) IN
-  IF rt = "unspecified" \/ ch = "unspecified" THEN LawNone
+  \* usage line "[FLAGS] [spec [target]]", "--indent INDENT number of spaces": anything else is a usage error
+  IF c.f.argv # "ok" THEN LawRec("argv", NoOut, "usage")
+  ELSE IF rt = "unspecified" \/ ch = "unspecified" THEN LawNone
   ELSE IF ch = "file" /\ c.t.file = "unreadable" THEN LawRec("usage", NoOut, "usage")
   ELSE LET empty == ChannelEmpty(c, ch)
            sl == IF empty THEN "emptymap" ELSE ch
@@ -130,10 +141,12 @@ LawOutcomeR(c, res) ==
        IF ~empty /\ f = "bad" THEN LawNone                 \* only the four documented formats
        ELSE IF ~empty /\ c.l.txt = "malformed" THEN LawRec("usage", NoOut, "usage")
        ELSE IF res = "na" THEN LawRec("machinery", UnspecOut, "unspec")
+       ELSE IF c.r.dbg = "inspect" THEN LawNone            \* interactive breakpoint
+       ELSE IF res = "glomerr" /\ c.r.dbg = "debug" THEN LawNone      \* interactive post-mortem
        ELSE IF res = "glomerr" THEN LawRec("glomerr", OutRec("errmsg", sl, ff, rt, "-"), "1")
-       ELSE IF c.p.scalar = "on" /\ res \in {"str", "int"}
+       ELSE IF c.p.scalar = "on" /\ res \in {"str", "int", "float"}
             THEN LawRec("result", OutRec("raw", sl, ff, rt, "-"), "0")
-       ELSE IF c.p.scalar = "on" /\ res = "other" THEN LawNone   \* --scalar on None/bool/float
+       ELSE IF c.p.scalar = "on" /\ res = "other" THEN LawNone   \* --scalar on None / bool: Python or JSON spelling?
        ELSE LawRec("result", OutRec("json", sl, ff, rt, LawIndent(c)), "0")
 LawOutcome(c) == LawOutcomeR(c, c.r.res)
 
@@ -150,6 +163,8 @@ ResultLaw == (m.pc = "done" /\ m.law.k = "result") => (m.out = m.law.out /\ m.ex
 GlomErrorLaw == (m.pc = "done" /\ m.law.k = "glomerr") => (m.out = m.law.out /\ m.exit = "1")
 \* "an unreadable or malformed target yields a usage error rather than a result"
 TargetUsageLaw == (m.pc = "done" /\ m.law.k = "usage") => (m.out = NoOut /\ m.exit = "usage")
+\* the documented command-line syntax: "[FLAGS] [spec [target]]", integer --indent
+ArgvLaw == (m.pc = "done" /\ m.law.k = "argv") => (m.out = NoOut /\ m.exit = "usage")
 \* bookkeeping: the stored law is the law
 LawStored == m.pc = "done" => m.law = LawOutcome(m.cfg)
 
@@ -157,21 +172,40 @@ LawStored == m.pc = "done" => m.law = LawOutcome(m.cfg)
 \* MECHANISM  (glom/cli.py, one action per dispatch case)
 \* =================================================================================
 Do(name, pc2) == [m EXCEPT !.pc = pc2, !.hist = Append(@, name)]
-End(name, o, e) == [Do(name, "done") EXCEPT !.out = o, !.exit = e, !.law = LawOutcome(m.cfg)]
-Usage(name) == End(name, NoOut, "usage")       \* face prints "error: ..." and exits non-zero
+\* process status and stderr per exit class: everything but success is status 1; usage errors
+\* ("error: ...") and tracebacks go to stderr, results and GlomError reports to stdout
+RcOf(e) == CASE e = "0" -> "0" [] e \in {"1", "usage", "crash"} -> "1" [] OTHER -> "-"
+ErrOf(e) == CASE e \in {"0", "1"} -> "empty" [] e \in {"usage", "crash"} -> "text" [] OTHER -> "-"
+End(name, o, e) == [Do(name, "done") EXCEPT !.out = o, !.exit = e, !.rc = RcOf(e), !.err = ErrOf(e),
+                                            !.law = LawOutcome(m.cfg)]
+Usage(name) == IF Mutant = "usage0" THEN End(name, NoOut, "0")
+               ELSE End(name, NoOut, "usage")  \* face prints "error: ..." and exits non-zero
 Crash(name) == End(name, NoOut, "crash")       \* an exception escapes (traceback)
+
+\* ---- ParseArgv: face (flag syntax, at most two positionals), before any glom code ----
+AtArgv == m.pc = "argv" /\ Known("f")
+ArgvOk == AtArgv /\ m.cfg.f.argv = "ok" /\ m' = Do("ArgvOk", "spec")
+UsageArgv == AtArgv /\ m.cfg.f.argv # "ok"
+             /\ IF Mutant = "argvignored" /\ m.cfg.f.argv = "toomany"
+                THEN m' = Do("UsageArgv", "spec") ELSE m' = Usage("UsageArgv")
+ParseArgv == ArgvOk \/ UsageArgv
 
 \* ---- ParseSpec: mw_get_target, lines 169-196 -------------------------------------
 AtSpec == m.pc = "spec" /\ Known("s")
 STxt == m.cfg.s.txt
-SFmt == NormS(m.cfg.s.fmt)
+\* the format is what --spec-format says; the file name plays no part
+SFmt == IF Mutant = "extformat" /\ m.cfg.s.file = "ok" /\ m.cfg.s.arg # "text" /\ NormS(m.cfg.s.fmt) = "python"
+        THEN CASE m.cfg.s.ext = ".py" -> "python-full" [] m.cfg.s.ext = ".json" -> "json" [] OTHER -> "python"
+        ELSE NormS(m.cfg.s.fmt)
 SpecBoth == m.cfg.s.arg = "text" /\ m.cfg.s.file # "none"         \* spec_text and spec_file
-SpecReadable == ~SpecBoth /\ m.cfg.s.file # "unreadable"
+\* open('-') is just a missing file: the spec has no standard-input route
+SpecUnreadable == m.cfg.s.file \in {"unreadable", "dash"}
+SpecReadable == ~SpecBoth /\ ~SpecUnreadable
 HasSpecText == AtSpec /\ SpecReadable /\ STxt.lead # "none"
 EffectEvs(tx) == IF tx.adv THEN <<"effect">> ELSE <<>>
 
 UsageSpecConflict == AtSpec /\ SpecBoth /\ m' = Usage("UsageSpecConflict")
-UsageSpecFile == AtSpec /\ ~SpecBoth /\ m.cfg.s.file = "unreadable" /\ m' = Usage("UsageSpecFile")
+UsageSpecFile == AtSpec /\ ~SpecBoth /\ SpecUnreadable /\ m' = Usage("UsageSpecFile")
 \* `if not spec_text: spec = Path()` (before the format is looked at)
 SpecAbsent == AtSpec /\ SpecReadable /\ STxt.lead = "none"
               /\ m' = [Do("SpecAbsent", "select") EXCEPT !.route = "ident"]
@@ -216,7 +250,7 @@ ParseSpec == \/ UsageSpecConflict \/ UsageSpecFile \/ SpecAbsent \/ SpecPyString
 AtSelect == m.pc = "select" /\ Known("t")
 TArg == m.cfg.t.arg
 TFile == m.cfg.t.file
-TargetBoth == TArg # "none" /\ TFile # "none"                     \* target_text and target_file
+TargetBoth == TArg \in {"text", "dash"} /\ TFile # "none"         \* target_text and target_file (truthiness)
 Pick(name, ch) == m' = [Do(name, "load") EXCEPT !.sel = ch]
 
 UsageTargetConflict == AtSelect /\ TargetBoth /\ m' = Usage("UsageTargetConflict")
@@ -226,7 +260,7 @@ SelectFile == AtSelect /\ ~TargetBoth /\ TFile \in {"ok", "okempty"} /\ Pick("Se
 SelectArg == AtSelect /\ TArg = "text" /\ TFile = "none"
              /\ Pick("SelectArg", IF Mutant = "stdinfirst" /\ m.cfg.t.stdin = "data" THEN "stdin" ELSE "arg")
 \* `elif not target_text and not isatty(sys.stdin)`
-SelectStdin == AtSelect /\ TArg = "none" /\ TFile = "none" /\ Pick("SelectStdin", "stdin")
+SelectStdin == AtSelect /\ TArg \in {"none", "empty"} /\ TFile = "none" /\ Pick("SelectStdin", "stdin")
 
 SelectTarget == \/ UsageTargetConflict \/ SelectDash \/ UsageTargetFile \/ SelectFile \/ SelectArg
                 \/ SelectStdin
@@ -234,7 +268,10 @@ SelectTarget == \/ UsageTargetConflict \/ SelectDash \/ UsageTargetFile \/ Selec
 \* ---- LoadTarget: mw_handle_target -------------------------------------------------
 AtLoad == m.pc = "load" /\ Known("l")
 SelEmpty == ChannelEmpty(m.cfg, m.sel)
-TFmt == NormT(m.cfg.l.fmt)
+\* the format is what --target-format says; the file name plays no part
+TFmt == IF Mutant = "exttarget" /\ m.sel = "file" /\ NormT(m.cfg.l.fmt) = "json"
+        THEN CASE m.cfg.t.ext = ".yml" -> "yaml" [] m.cfg.t.ext = ".toml" -> "toml" [] OTHER -> "json"
+        ELSE NormT(m.cfg.l.fmt)
 \* `if not target_text: return {}` (before the format is looked at)
 LoadEmpty == AtLoad /\ SelEmpty /\ m' = [Do("LoadEmpty", "run") EXCEPT !.tgt = "emptymap"]
 UsageTargetFormat == AtLoad /\ ~SelEmpty /\ TFmt = "bad" /\ m' = Usage("UsageTargetFormat")
@@ -249,25 +286,36 @@ LoadTarget == LoadEmpty \/ UsageTargetFormat \/ UsageTargetLoad \/ LoadOk
 AtRun == m.pc = "run" /\ Known("r")
 OutSel == IF m.tgt = "emptymap" THEN "emptymap" ELSE m.sel
 OutFmt == IF m.tgt = "emptymap" THEN "-" ELSE TFmt
-RunOk == AtRun /\ m.cfg.r.res \in {"coll", "str", "int", "other"} /\ m' = Do("RunOk", "print")
-RunGlomError == AtRun /\ m.cfg.r.res = "glomerr"
+\* --debug / --inspect wrap the spec in Inspect(...): --inspect echoes and stops at a breakpoint,
+\* --debug starts a post-mortem when glom raises (both interactive: outcome open); a successful
+\* --debug run is an ordinary run
+Dbg == m.cfg.r.dbg
+RunInspect == AtRun /\ Dbg = "inspect" /\ m' = End("RunInspect", UnspecOut, "unspec")
+RunOk == AtRun /\ Dbg # "inspect" /\ m.cfg.r.res \in {"coll", "str", "int", "float", "other"}
+         /\ IF Mutant = "debugdrop" /\ Dbg = "debug" THEN m' = End("RunOk", NoOut, "0")
+            ELSE m' = Do("RunOk", "print")
+RunGlomError == AtRun /\ Dbg = "off" /\ m.cfg.r.res = "glomerr"
                 /\ m' = End("RunGlomError", OutRec("errmsg", OutSel, OutFmt, m.route, "-"),
                             IF Mutant = "exit0" THEN "0" ELSE "1")
-Run == RunOk \/ RunGlomError
+RunPostMortem == AtRun /\ Dbg = "debug" /\ m.cfg.r.res = "glomerr"
+                 /\ m' = End("RunPostMortem", UnspecOut, "unspec")
+Run == RunInspect \/ RunOk \/ RunGlomError \/ RunPostMortem
 
 AtPrint == m.pc = "print" /\ Known("p")
 IndentArg == CASE m.cfg.p.indent = "default" -> "2"
                [] m.cfg.p.indent = "0" -> (IF Mutant = "indent0" THEN "0" ELSE "none")
                [] OTHER -> m.cfg.p.indent
-PrintScalar == AtPrint /\ m.cfg.p.scalar = "on" /\ m.cfg.r.res \in {"str", "int", "other"}
+\* `if scalar and is_scalar(result)`: anything that is not a collection
+ScalarKinds == {"str", "int", "float", "other"} \cup (IF Mutant = "scalarcoll" THEN {"coll"} ELSE {})
+PrintScalar == AtPrint /\ m.cfg.p.scalar = "on" /\ m.cfg.r.res \in ScalarKinds
                /\ m' = End("PrintScalar", OutRec("raw", OutSel, OutFmt, m.route, "-"), "0")
-PrintJson == AtPrint /\ ~(m.cfg.p.scalar = "on" /\ m.cfg.r.res \in {"str", "int", "other"})
+PrintJson == AtPrint /\ ~(m.cfg.p.scalar = "on" /\ m.cfg.r.res \in ScalarKinds)
              /\ m' = End("PrintJson", OutRec("json", OutSel, OutFmt, m.route, IndentArg), "0")
 PrintResult == PrintScalar \/ PrintJson
 
-CliNext == ParseSpec \/ SelectTarget \/ LoadTarget \/ Run \/ PrintResult
+CliNext == ParseArgv \/ ParseSpec \/ SelectTarget \/ LoadTarget \/ Run \/ PrintResult
 
 \* the part of the configuration the CLI looks at in each control state
-PartOf(pc) == CASE pc = "spec" -> "s" [] pc = "select" -> "t" [] pc = "load" -> "l"
+PartOf(pc) == CASE pc = "argv" -> "f" [] pc = "spec" -> "s" [] pc = "select" -> "t" [] pc = "load" -> "l"
                 [] pc = "run" -> "r" [] pc = "print" -> "p" [] OTHER -> "-"
 ====================================================================================
